@@ -91,6 +91,7 @@ void h_find_smallest_boundary_u(void) {
 }
 
 /* ---------------------------------------------------------------- ver.boundary.add.u */
+static void icmp_hook(const ldb_slice_t *x, const ldb_slice_t *y, int res) { (void)x; (void)y; (void)res; }
 static void push_hook(const void *x) {
   const ldb_filemeta_t *f = x;
   __CPROVER_assert(x == (const void *)&g_fk, "add_boundary_inputs: every element added is a file of the level (the boundary file just found)");
